@@ -94,7 +94,7 @@ def finish(ctx, t0, seed, explanation, assumptions, trusted=None, exhaustive=Non
             seen_known.append((known_keys[v["key"]], v))
         else:
             real.append(v)
-    ev_dir = os.path.join(VERIF, "evidence")
+    ev_dir = os.environ.get("PSA_EVIDENCE_DIR") or os.path.join(VERIF, "evidence")
     rp_dir = os.path.join(ev_dir, "replay")
     os.makedirs(rp_dir, exist_ok=True)
     for f in os.listdir(rp_dir):
